@@ -23,11 +23,20 @@ RECURSIVE Ratio(_, _, _)
 Ratio(c, k, j) == IF j <= 1 THEN S ELSE IF c - (j - 1) <= 0 THEN 0 ELSE FxMul(Ratio(c, k, j - 1), Q(c - (j - 1), k - (j - 1)))
 CCl(c, m, o, v) == IF v = 1 THEN (IF c * m < o - 1 THEN 0 ELSE Ratio(c, c * m, o - 1))
                    ELSE (IF c < o - 1 THEN 0 ELSE S)
+\* global measures: triangles = m C(c,3) + m C(c,2) (with the hub), 2-stars = C(k,2) + k C(c,2),
+\* 4-cliques = m C(c,4) + m C(c,3), 3-stars = C(k,3) + k C(c,3), links = k + m C(c,2)
+B2(n) == (n * (n - 1)) \div 2
+B3(n) == (n * (n - 1) * (n - 2)) \div 6
+B4(n) == (B3(n) * (n - 3)) \div 4
+CTrans(c, m) == Q(3 * (m * B3(c) + m * B2(c)), B2(c * m) + c * m * B2(c))
+CGlob(c, m) == RDiv(CCl(c, m, 3, 1) + c * m * S, c * m + 1)
+CHot4(c, m) == IF B3(c * m) + c * m * B3(c) = 0 THEN 0 ELSE Q(4 * (m * B4(c) + m * B3(c)), B3(c * m) + c * m * B3(c))
 ClosedFormIsDef(c, m) ==
   LET G == Ctx(Adj(c, m), 0, [k \in 1..(c * m + 1) |-> 1]) IN
   \A v \in 1..(c * m + 1) :
      /\ Deg(G, v) = CDeg(c, m, v)
      /\ \A o \in 3..5 : Close(LocalCliquishness(G, o, v), CCl(c, m, o, v), 2)
+     /\ Close(Transitivity(G), CTrans(c, m), 2) /\ Close(HigherOrderTransitivity4(G), CHot4(c, m), 2)
 VecIs(o, nm, F(_), n) == Len(o[nm]) = n /\ \A v \in 1..n : Close(o[nm][v], F(v), Tol)
 Verdict(e) ==
   LET m == e.m  c == e.c  n == c * m + 1  o == e.obs
@@ -40,6 +49,10 @@ Verdict(e) ==
                 \cup (IF ~VecIs(o, "cliq4", LAMBDA v : CCl(c, m, 4, v), n) THEN {"Def|local_cliquishness(4)"} ELSE {})
                 \cup (IF ~VecIs(o, "cliq5", LAMBDA v : CCl(c, m, 5, v), n) THEN {"Def|local_cliquishness(5)"} ELSE {})
                 \cup (IF ~VecIs(o, "maxnbdeg", LAMBDA v : S * (IF v = 1 THEN c ELSE c * m), n) THEN {"Def|max_neighbors_degree"} ELSE {})
+                \cup (IF ~Close(o.transitivity, CTrans(c, m), Tol) THEN {"Def|transitivity"} ELSE {})
+                \cup (IF ~Close(o.global_clustering, CGlob(c, m), Tol) THEN {"Def|global_clustering"} ELSE {})
+                \cup (IF ~Close(o.hot4, CHot4(c, m), Tol) THEN {"Def|higher_order_transitivity(4)"} ELSE {})
+                \cup (IF o.n_links # c * m + m * B2(c) THEN {"Def|n_links"} ELSE {})
        IN IF f = {} THEN <<"ACCEPT", "", "", tags>> ELSE <<"REJECT", "Multi", JoinSet(f), tags>>
 Verdicts == TLCEval([k \in 1..Len(Trace) |-> Verdict(Trace[k])])
 Init == i = 1
